@@ -65,6 +65,7 @@ const (
 	kEmpty     = "empty" // returns an empty chain and no error   (malformed stream)
 	kNoID      = "noid"  // returns a leaf without a SPIFFE ID       (malformed stream)
 	kAnchorErr = "oka"   // signs a leaf, but the trust-anchor source fails afterwards (needs dir)
+	kWriteErr  = "okw"   // signs a leaf, but dir.Write fails (the harness makes the base path a file; needs dir)
 )
 
 // Item is one scripted issuer reply. A/B are offsets (ns) of NotBefore/NotAfter from the clock value
@@ -189,7 +190,7 @@ func (is *issuer) fn(ctx context.Context, csrDER []byte) ([]*x509.Certificate, e
 		is.taFailNext = true
 		is.mu.Unlock()
 	}
-	finish(it.Kind == kOK, leaf.NotBefore, leaf.NotAfter)
+	finish(it.Kind == kOK || it.Kind == kWriteErr, leaf.NotBefore, leaf.NotAfter)
 	return []*x509.Certificate{leaf, is.ca.cert}, nil
 }
 
